@@ -242,9 +242,8 @@ def extract_live_ranges_from_cascaded_passes(
     if lr_graph is None:
         lr_graph = LiveRangeGraph()
 
-    if sg in lr_graph.processed_subgraphs:
-        # if subgraph has been processed already, return the lr_graph as is
-        return lr_graph
+    # A subgraph that is called from more than one operator (e.g. two While ops that share their cond/body subgraphs) is
+    # processed for every call: its tensors must also be live while the later calls run
 
     for index, cps in enumerate(sg.cascaded_passes):
         progress_print(verbose_progress, "Processing cascaded pass", index, sg.cascaded_passes)
